@@ -417,10 +417,10 @@ func (e *fakeExec) isReleased() bool { e.mu.Lock(); defer e.mu.Unlock(); return 
 // ---- driver -----------------------------------------------------------------------------
 
 const (
-	wdReady   = 10 * time.Second // handler must ask for the next message
-	wdSettle  = 5 * time.Second  // executors must reach their next park state
-	wdDone    = 10 * time.Second // Handle must return after the connection ended
-	wdGrace   = 4 * time.Second  // second look before calling a blocked Handle "wedged"
+	wdReady  = 10 * time.Second // handler must ask for the next message
+	wdSettle = 5 * time.Second  // executors must reach their next park state
+	wdDone   = 10 * time.Second // Handle must return after the connection ended
+	wdGrace  = 4 * time.Second  // second look before calling a blocked Handle "wedged"
 )
 
 // outcome of driving one case.
